@@ -65,10 +65,8 @@ impl Generator {
         // at this point, stack has no MARKs, just regular items
         // keep combining until we have exactly 1 item
         // use TUPLE2/TUPLE3 which don't require MARKs
-        let mut safety_counter = 0;
-        while self.state.stack.len() > 1 && safety_counter < 10000 {
-            safety_counter += 1;
-
+        // every iteration emits TUPLE2/TUPLE3 and so shrinks the stack: the loop terminates
+        while self.state.stack.len() > 1 {
             let stack_len = self.state.stack.len();
             if stack_len >= 3 {
                 self.emit_opcode(Tuple3);
